@@ -1,6 +1,8 @@
 /- prints the hand-transcribed specification tables as JSON (independent of anything generated) -/
 import RichchkModel.Model.Dump
 import RichchkModel.Spec.Layouts
+import RichchkModel.Spec.TrigArgs
+import RichchkModel.Spec.Flags
 open Richchk
 
 def jsonStr (s : String) : String := "\"" ++ s ++ "\""
@@ -19,4 +21,15 @@ def jsonLayout : SecLayout → String
 def jsonTable (t : SecTable) : String :=
   "[" ++ ",".intercalate (t.map fun (n, L) => "{\"name\":" ++ jsonStr (hexOfBytes n) ++ ",\"layout\":" ++ jsonLayout L ++ "}") ++ "]"
 
-def main : IO Unit := IO.println ("{\"layouts\":" ++ jsonTable Spec.specTable ++ "}")
+def jsonStrList (l : List String) : String := "[" ++ ",".intercalate (l.map jsonStr) ++ "]"
+def jsonSpecRows (rs : List SpecRow) : String :=
+  "[" ++ ",".intercalate (rs.map fun r => "{\"id\":" ++ toString r.id ++ ",\"member\":" ++ jsonStr r.member ++ ",\"args\":[" ++
+    ",".intercalate (r.args.map fun a => "[" ++ jsonStr a.1 ++ "," ++ jsonStr a.2 ++ "]") ++ "]}") ++ "]"
+def jsonFlags : String :=
+  "[" ++ ",".intercalate (Spec.flagBits.map fun p => "{\"name\":" ++ jsonStr p.1 ++ ",\"bits\":" ++ jsonStrList p.2 ++
+    ",\"inverted\":" ++ (if Spec.invertedFlags.contains p.1 then "true" else "false") ++ "}") ++ "]"
+
+def main : IO Unit := IO.println ("{\"layouts\":" ++ jsonTable Spec.specTable ++
+  ",\"actions\":" ++ jsonSpecRows Spec.actions ++ ",\"conditions\":" ++ jsonSpecRows Spec.conditions ++
+  ",\"actionFields\":" ++ jsonStrList Spec.actionFields ++ ",\"conditionFields\":" ++ jsonStrList Spec.conditionFields ++
+  ",\"flags\":" ++ jsonFlags ++ "}")
